@@ -10,7 +10,7 @@ from pysmi import debug
 
 class AbstractBorrower(object):
     genTexts = False
-    exts = ''
+    exts = ['']  # a list of file name extensions; by default the bare module name
 
     def __init__(self, reader, genTexts=False):
         """Creates an instance of *Borrower* class.
